@@ -417,6 +417,16 @@ class VQueue:
             raise HarnessGap('bounded queues are not modelled')
         self.items = collections.deque()
         self.unfinished = 0
+        # documented-by-use internals of queue.Queue: the deque of items and its mutex
+        self.queue = self.items
+        self.mutex = VLock()
+
+    @property
+    def unfinished_tasks(self):
+        return self.unfinished
+
+    def __getattr__(self, attr):
+        raise HarnessGap(f'Queue.{attr} is not modelled by the look-alike')
 
     def put(self, item, block=True, timeout=None):
         _ctrl().sched_point('queue.put')
